@@ -10,6 +10,7 @@ import (
 	"math/big"
 	"net"
 	"os"
+	"runtime"
 	"sort"
 	"strings"
 	"sync"
@@ -38,6 +39,7 @@ import (
 	"verif/chaingen"
 	"verif/simapp"
 	"verif/simcore"
+	"verif/simdisk"
 )
 
 func TestMain(m *testing.M) {
@@ -49,7 +51,7 @@ func TestSim(t *testing.T) { simcore.Main(t, harness) }
 
 var harness = &simcore.Harness{
 	Name:         "syncsim",
-	Props:        []string{"C13"},
+	Props:        []string{"C13", "C05"},
 	Config:       genConfig,
 	New:          newSim,
 	MaxOps:       420,
@@ -61,6 +63,7 @@ var harness = &simcore.Harness{
 		"types.ValidatorSet.VerifyCommitLight / VerifyCommit, types.BlockFromProto (wire decoding of every response)",
 		"consensus.NewState (reconstructLastCommit + updateToState) on the synced stores at the hand-over and at simulated restarts",
 		"canonical chain: chaingen (real executor, real commits signed with known keys, validator churn)",
+		"crash mode (30% of runs, all runs for C05): block store and state store on simdisk.CrashDB, the pool routine is killed (runtime.Goexit) at the k-th persistence point of SaveBlock/ApplyBlock (database write pre/post, ABCI call pre/post), optionally a second crash inside the restart's handshake; restart as node.NewNode: stores reopened from the crash images, real consensus.Handshaker over the real application connection, consensus.NewState, new reactor, peers reconnect",
 	},
 	Stub: []string{
 		"peers: simulator objects implementing p2p.Peer; no MConnection/SecretConnection (see mconnsim/secconnsim)",
@@ -69,6 +72,7 @@ var harness = &simcore.Harness{
 		"hook H8 (blockchain/v0/pool_verif.go): the requester-spawning loop sleeps 2ms when idle instead of busy-spinning",
 	},
 	Assumptions: []string{
+		"crash model: per database the durable image plus a prefix of its unsynced write groups survives (the two databases independently); the application's state is durable as of its last Commit",
 		"at most 2/3 of the voting power of any height signs a foreign block that would pass validation; the only thing a larger coalition (all keys) signs is a block that is invalid against the state (behaviour byz_invalid/byz_commit), which the node must still refuse; validators may have signed genuine precommits for nil at any height/round (behaviours nil_flip, nil_fab/nil_carrier), which never count as power for a block",
 		"multi-eligible-peer runs depend on Go map iteration order inside BlockPool; a violation found there is reported only if an immediate in-process re-run of the same trace shows it again (otherwise counted as probe.unreproduced)",
 		"a switch to consensus with the store at (highest advertised height - 2) counts as having reached the tip: IsCaughtUp needs block H+1 to verify H, and the last verified block may still be unprocessed when the 1s ticker fires",
@@ -134,6 +138,10 @@ func genConfig(rng *simcore.RNG, env *simcore.Env) simcore.Op {
 	c["longticks"] = rng.Bool(0.3)
 	c["drain"] = []string{"remove", "remove", "silent"}[rng.Intn(3)]
 	c["npeers"] = rng.Range(2, 5) // multi mode: initial full-range peers
+	// crash mode: stores on crashable databases, the node is killed at a persistence point of
+	// the save/execute pipeline and restarted the way node.NewNode starts (always when the
+	// run is for C05, whose subject is that pipeline)
+	c["crash"] = rng.Bool(0.3) || env.Prop == "C05"
 	return c
 }
 
@@ -638,6 +646,7 @@ func (c *canon) forge(h int64, kind string, x int) *types.Block {
 type simPeer struct {
 	*service.BaseService
 	s    *sim
+	inc  int
 	idx  int
 	id   p2p.ID
 	addr *p2p.NetAddress
@@ -650,7 +659,7 @@ func newSimPeer(s *sim, idx int) *simPeer {
 	ip := net.IPv4(10, 1, byte(idx>>8), byte(idx))
 	addr := p2p.NewNetAddressIPPort(ip, 26656)
 	addr.ID = id
-	sp := &simPeer{s: s, idx: idx, id: id, addr: addr, kv: map[string]interface{}{}}
+	sp := &simPeer{s: s, inc: s.inc, idx: idx, id: id, addr: addr, kv: map[string]interface{}{}}
 	sp.BaseService = service.NewBaseService(nil, "simPeer", sp)
 	return sp
 }
@@ -679,18 +688,18 @@ func (p *simPeer) TrySend(ch byte, bz []byte) bool {
 	}
 	m := &bcproto.Message{}
 	if err := proto.Unmarshal(bz, m); err != nil {
-		p.s.noteSent(p.idx, nil)
+		p.s.noteSent(p, nil)
 		return true
 	}
 	uw, _ := m.Unwrap()
-	p.s.noteSent(p.idx, uw)
+	p.s.noteSent(p, uw)
 	return true
 }
 func (p *simPeer) SendEnvelope(e p2p.Envelope) bool {
 	if !p.IsRunning() {
 		return false
 	}
-	p.s.noteSent(p.idx, e.Message)
+	p.s.noteSent(p, e.Message)
 	return true
 }
 func (p *simPeer) TrySendEnvelope(e p2p.Envelope) bool { return p.SendEnvelope(e) }
@@ -700,10 +709,14 @@ func (p *simPeer) TrySendEnvelope(e p2p.Envelope) bool { return p.SendEnvelope(e
 // also learns the reason of every peer removal.
 type recorder struct {
 	p2p.BaseReactor
-	s *sim
+	s   *sim
+	inc int
 }
 
 func (r *recorder) SwitchToConsensus(state sm.State, skipWAL bool) {
+	if r.inc != r.s.inc {
+		return
+	}
 	r.s.mu.Lock()
 	if r.s.swRec == nil {
 		r.s.swRec = &switchRec{state: state.Copy(), skipWAL: skipWAL, at: time.Now()}
@@ -715,7 +728,7 @@ func (r *recorder) SwitchToConsensus(state sm.State, skipWAL bool) {
 
 func (r *recorder) RemovePeer(peer p2p.Peer, reason interface{}) {
 	sp, ok := peer.(*simPeer)
-	if !ok {
+	if !ok || r.inc != r.s.inc {
 		return
 	}
 	r.s.mu.Lock()
@@ -799,15 +812,31 @@ type sim struct {
 	lowered  bool // some peer advertised a lower height than it had advertised before
 	newStops []int
 
-	checked     int64 // store heights verified so far
-	journalPos  int
-	switched    bool
-	handedOver  bool
-	opsLeft     int
-	simBudget   time.Duration
-	planned     time.Duration
-	pendSig     string
-	pendMsg     string
+	checked    int64 // store heights verified so far
+	journalPos int
+	switched   bool
+	handedOver bool
+	opsLeft    int
+	simBudget  time.Duration
+	planned    time.Duration
+	pendProp   string
+	pendSig    string
+	pendMsg    string
+
+	// crash mode
+	crashMode   bool
+	inc         int // node incarnation
+	ctl         *simdisk.Ctl
+	bdb, sdb    *simdisk.CrashDB
+	armK        int // crash at the armK-th persistence point from now (0 = not armed)
+	armOp       simcore.Op
+	crashAt     string
+	inHS        bool
+	crashes     int
+	crashPlan   int
+	restarting  bool
+	startH      int64 // block store height when the current incarnation\'s reactor started
+	j05         c05state
 	dead        bool // multi mode: an unreproduced alarm ended the run
 	rerun       bool // this sim is the in-process re-run of a multi-mode alarm
 	rerunSig    string
@@ -851,30 +880,17 @@ func buildSim(env *simcore.Env, cfg simcore.Op, rerun bool) *sim {
 	s.simBudget = 45 * time.Second
 
 	// the syncing node: fresh application, empty stores, real handshake
+	s.crashMode = cfg.Bool("crash")
 	s.app = simapp.NewRecApp(c.ch.Opts.HashLen)
-	s.bs = store.NewBlockStore(dbm.NewMemDB())
-	s.stateStore = sm.NewStore(dbm.NewMemDB(), sm.StoreOptions{})
-	st, err := sm.MakeGenesisState(c.ch.GenDoc)
+	s.app.Point = func(l string) { s.ctl.Point(l) } // nil-safe: not in crash mode
+	s.openStores(nil, nil)
+	if err, pv := s.handshake(); err != nil || pv != nil {
+		panic(fmt.Sprint("initial handshake: ", err, pv))
+	}
+	st, err := s.stateStore.Load()
 	if err != nil {
 		panic(err)
 	}
-	if err := s.stateStore.Save(st); err != nil {
-		panic(err)
-	}
-	s.proxyApp = proxy.NewAppConns(s.app.ClientCreator())
-	s.proxyApp.SetLogger(log.NewNopLogger())
-	if err := s.proxyApp.Start(); err != nil {
-		panic(err)
-	}
-	hs := consensus.NewHandshaker(s.stateStore, st, s.bs, c.ch.GenDoc)
-	hs.SetLogger(log.NewNopLogger())
-	if err := hs.Handshake(s.proxyApp); err != nil {
-		panic(err)
-	}
-	if st, err = s.stateStore.Load(); err != nil {
-		panic(err)
-	}
-	s.blockExec = sm.NewBlockExecutor(s.stateStore, log.NewNopLogger(), s.proxyApp.Consensus(), mempl.Mempool{}, sm.EmptyEvidencePool{})
 	// optionally the node already holds a prefix of the chain (restart in the middle of a sync)
 	pre := int64(cfg.Int("prefill"))
 	for h := c.init; h < c.init+pre && h < s.n-2; h++ {
@@ -888,30 +904,7 @@ func buildSim(env *simcore.Env, cfg simcore.Op, rerun bool) *sim {
 	if s.checked < c.init-1 {
 		s.checked = c.init - 1
 	}
-
-	nodeKey := p2p.NodeKey{PrivKey: ed25519.GenPrivKeyFromSecret([]byte("syncsim-node"))}
-	ni := p2p.DefaultNodeInfo{ProtocolVersion: p2p.NewProtocolVersion(8, 11, 1), DefaultNodeID: nodeKey.ID(), ListenAddr: "127.0.0.1:26656",
-		Network: c.chainID, Version: "0.34.24", Channels: []byte{v0.BlockchainChannel}, Moniker: "syncsim"}
-	pcfg := config.DefaultP2PConfig()
-	s.sw = p2p.NewSwitch(pcfg, p2p.NewMultiplexTransport(ni, nodeKey, p2p.MConnConfig(pcfg)))
-	s.sw.SetLogger(log.NewNopLogger())
-	s.sw.SetNodeKey(&nodeKey)
-	s.sw.SetNodeInfo(ni)
-	s.bcR = v0.NewBlockchainReactor(st.Copy(), s.blockExec, s.bs, true)
-	s.bcR.SetLogger(log.NewNopLogger())
-	s.rec = &recorder{s: s}
-	s.rec.BaseReactor = *p2p.NewBaseReactor("syncsimRecorder", s.rec)
-	s.sw.AddReactor("BLOCKCHAIN", s.bcR)
-	s.sw.AddReactor("CONSENSUS", s.rec)
-	s.t0 = time.Now()
-	if err := s.bcR.Start(); err != nil {
-		panic(err)
-	}
-	env.Settle()
-	// every action of the simulator happens 5ms off the 10ms grid of the reactor's tickers, so
-	// that no timer armed by a stimulus (15s peer timeout, 30s retry) coincides with a ticker
-	time.Sleep(5 * time.Millisecond)
-	env.Settle()
+	s.startReactor(st)
 	if s.mode == "multi" {
 		for i := 0; i < cfg.Int("npeers"); i++ {
 			s.join(s.nextIdx, -1, false)
@@ -923,8 +916,331 @@ func buildSim(env *simcore.Env, cfg simcore.Op, rerun bool) *sim {
 	return s
 }
 
-func (s *sim) noteSent(p int, m proto.Message) {
-	r := sentRec{p: p, kind: "other", at: time.Now()}
+// openStores opens the block store and the state store on the given durable images (nil =
+// empty) and a fresh application connection, as a starting node does.
+func (s *sim) openStores(bimg, simg map[string][]byte) {
+	var bdb, sdb dbm.DB
+	if s.crashMode {
+		s.ctl = &simdisk.Ctl{}
+		s.ctl.OnPoint = s.onPoint
+		s.bdb = simdisk.NewCrashDB("blockstore", bimg, s.ctl)
+		s.sdb = simdisk.NewCrashDB("state", simg, s.ctl)
+		bdb, sdb = s.bdb, s.sdb
+	} else {
+		bdb, sdb = dbm.NewMemDB(), dbm.NewMemDB()
+	}
+	s.bs = store.NewBlockStore(bdb)
+	s.stateStore = sm.NewStore(sdb, sm.StoreOptions{})
+	s.proxyApp = proxy.NewAppConns(s.app.ClientCreator())
+	s.proxyApp.SetLogger(log.NewNopLogger())
+	if err := s.proxyApp.Start(); err != nil {
+		panic(err)
+	}
+	s.blockExec = sm.NewBlockExecutor(s.stateStore, log.NewNopLogger(), s.proxyApp.Consensus(), mempl.Mempool{}, sm.EmptyEvidencePool{})
+}
+
+type crashSentinel struct{}
+
+// onPoint is called at every persistence point (database write pre/post, ABCI call
+// pre/post on the consensus connection) of the current incarnation.
+func (s *sim) onPoint(label string, idx int) {
+	s.mu.Lock()
+	fire := false
+	if s.armK > 0 {
+		s.armK--
+		fire = s.armK == 0
+	}
+	hs := s.inHS
+	if fire {
+		s.crashAt = label
+	}
+	s.mu.Unlock()
+	if !fire {
+		return
+	}
+	s.ctl.Kill() // nothing the dying process does from here on reaches the disk
+	if hs {
+		panic(crashSentinel{}) // the handshake runs on the simulator's goroutine
+	}
+	runtime.Goexit() // the pool routine dies in the middle of its save/execute pipeline
+}
+
+// handshake does what node.NewNode does between opening the stores and building the
+// reactors: load the state (or make the genesis state) and run the real Handshaker.
+func (s *sim) handshake() (err error, pv any) {
+	st, lerr := s.stateStore.Load()
+	if lerr != nil {
+		return lerr, nil
+	}
+	if st.IsEmpty() {
+		if st, lerr = sm.MakeGenesisState(s.c.ch.GenDoc); lerr != nil {
+			return lerr, nil
+		}
+		if lerr = s.stateStore.Save(st); lerr != nil {
+			return lerr, nil
+		}
+	}
+	s.mu.Lock()
+	s.inHS = true
+	s.mu.Unlock()
+	defer func() {
+		s.mu.Lock()
+		s.inHS = false
+		s.mu.Unlock()
+		pv = recover()
+	}()
+	hs := consensus.NewHandshaker(s.stateStore, st, s.bs, s.c.ch.GenDoc)
+	hs.SetLogger(log.NewNopLogger())
+	return hs.Handshake(s.proxyApp), nil
+}
+
+// startReactor builds switch, blockchain reactor and recorder for the current incarnation.
+func (s *sim) startReactor(st sm.State) {
+	c := s.c
+	nodeKey := p2p.NodeKey{PrivKey: ed25519.GenPrivKeyFromSecret([]byte("syncsim-node"))}
+	ni := p2p.DefaultNodeInfo{ProtocolVersion: p2p.NewProtocolVersion(8, 11, 1), DefaultNodeID: nodeKey.ID(), ListenAddr: "127.0.0.1:26656",
+		Network: c.chainID, Version: "0.34.24", Channels: []byte{v0.BlockchainChannel}, Moniker: "syncsim"}
+	pcfg := config.DefaultP2PConfig()
+	s.sw = p2p.NewSwitch(pcfg, p2p.NewMultiplexTransport(ni, nodeKey, p2p.MConnConfig(pcfg)))
+	s.sw.SetLogger(log.NewNopLogger())
+	s.sw.SetNodeKey(&nodeKey)
+	s.sw.SetNodeInfo(ni)
+	s.bcR = v0.NewBlockchainReactor(st.Copy(), s.blockExec, s.bs, true)
+	s.bcR.SetLogger(log.NewNopLogger())
+	s.rec = &recorder{s: s, inc: s.inc}
+	s.rec.BaseReactor = *p2p.NewBaseReactor("syncsimRecorder", s.rec)
+	s.sw.AddReactor("BLOCKCHAIN", s.bcR)
+	s.sw.AddReactor("CONSENSUS", s.rec)
+	s.t0 = time.Now()
+	s.startH = s.bs.Height()
+	if err := s.bcR.Start(); err != nil {
+		panic(err)
+	}
+	s.env.Settle()
+	// every action of the simulator happens 5ms off the 10ms grid of the reactor's tickers, so
+	// that no timer armed by a stimulus (15s peer timeout, 30s retry) coincides with a ticker
+	time.Sleep(5 * time.Millisecond)
+	s.env.Settle()
+}
+
+// restart: the node process died at a persistence point. What survives is the durable image
+// of each database plus a prefix of its unsynced write groups, and the application as of
+// its last Commit. The node is started again the way node.NewNode does it; the peers
+// reconnect and repeat their status.
+func (s *sim) restart() {
+	e := s.env
+	s.restarting = true
+	defer func() { s.restarting = false }()
+	op := s.armOp
+	s.crashes++
+	e.Count("fault.crash")
+	switch {
+	case strings.HasPrefix(s.crashAt, "abci:"):
+		e.Count("fault.crash_at_abci_point")
+	case strings.HasPrefix(s.crashAt, "db:blockstore"):
+		e.Count("fault.crash_at_blockstore_write")
+	default:
+		e.Count("fault.crash_at_state_write")
+	}
+	if s.mode == "strict" {
+		e.Logf("crash at %s", s.crashAt)
+	}
+	hk := op.Int("hk")
+	for attempt := 0; ; attempt++ {
+		// tear the dead incarnation down
+		if s.bcR != nil && s.bcR.IsRunning() {
+			_ = s.bcR.Stop()
+		}
+		for _, p := range s.peers {
+			if p.sp.IsRunning() {
+				_ = p.sp.Stop()
+			}
+		}
+		if s.proxyApp.IsRunning() {
+			_ = s.proxyApp.Stop()
+		}
+		s.ctl.Kill()
+		e.Settle()
+		ub, us := s.bdb.Unsynced(), s.sdb.Unsynced()
+		kb, ks := (ub*op.Int("kb")+500)/1000, (us*op.Int("ks")+500)/1000
+		if ub+us > 0 {
+			e.Count("fault.crash_with_unsynced_writes")
+		}
+		bimg, simg := s.bdb.Image(kb), s.sdb.Image(ks)
+		s.app.Crash()
+		s.inc++
+		s.mu.Lock()
+		s.inbox, s.stopq, s.armK = nil, nil, 0
+		s.mu.Unlock()
+		s.req = map[int64]*reqM{}
+		s.newStops = nil
+		s.openStores(bimg, simg)
+		if attempt == 0 && hk > 0 {
+			s.mu.Lock()
+			s.armK = hk // a second crash, inside the handshake's replay
+			s.mu.Unlock()
+		}
+		err, pv := s.handshake()
+		s.mu.Lock()
+		s.armK = 0
+		s.mu.Unlock()
+		if _, crashed := pv.(crashSentinel); crashed {
+			e.Count("fault.crash_in_handshake")
+			if s.mode == "strict" {
+				e.Logf("crash in handshake at %s", s.crashAt)
+			}
+			continue
+		}
+		if err != nil || pv != nil {
+			s.dead = true
+			s.violP("C05", "restart-handshake-failed", "after a crash at %q (kept %d/%d block-store and %d/%d state-store unsynced write groups) the handshake failed: %v %v", s.crashAt, kb, ub, ks, us, err, pv)
+			return
+		}
+		break
+	}
+	st, err := s.stateStore.Load()
+	if err != nil {
+		s.dead = true
+		s.violP("C05", "restart-state-load", "state store after restart: %v", err)
+		return
+	}
+	// saved state, block store and application agree on height and application hash
+	sh, ah := s.bs.Height(), s.app.CommittedHeight()
+	if st.LastBlockHeight != sh || (ah != sh && !(sh == 0 && ah <= s.init-1)) {
+		s.violP("C05", "restart-heights-disagree", "after the restart (crash at %q): state height %d, block store height %d, application height %d", s.crashAt, st.LastBlockHeight, sh, ah)
+	}
+	if sh > 0 {
+		want := s.c.ch.States[sh].AppHash
+		if !bytes.Equal(st.AppHash, s.app.CommittedHash()) || !bytes.Equal(st.AppHash, want) {
+			s.violP("C05", "restart-apphash-disagree", "after the restart at height %d: state app hash %X, application %X, canonical %X", sh, st.AppHash, s.app.CommittedHash(), want)
+		}
+	}
+	s.checkJournal()
+	// every stored height loads, the tip has its seen commit
+	if sh > 0 {
+		for h := s.bs.Base(); h <= sh; h++ {
+			if s.bs.LoadBlockMeta(h) == nil || s.bs.LoadBlock(h) == nil {
+				s.viol("restart-block-missing", "after the restart the block store claims heights %d..%d but height %d does not load", s.bs.Base(), sh, h)
+				break
+			}
+		}
+		if s.bs.LoadSeenCommit(sh) == nil {
+			s.viol("restart-tip-seen-commit-missing", "after the restart (crash at %q) the block store is at height %d but holds no seen commit for it", s.crashAt, sh)
+		}
+		if s.checked > sh {
+			s.viol("restart-store-regressed", "block store height %d after the restart, %d had been saved (and synced) before", sh, s.checked)
+			s.checked = sh
+		}
+	}
+	s.checkStore()
+	if !st.IsEmpty() && st.LastBlockHeight > 0 {
+		s.tryConsensusStart(st, "restart_after_crash")
+	}
+	var pv any
+	func() {
+		defer func() { pv = recover() }()
+		s.startReactor(st)
+	}()
+	if pv != nil {
+		s.dead = true
+		s.violP("C05", "restart-reactor-panic", "building the blockchain reactor after the restart panicked: %v", pv)
+		return
+	}
+	// the peers reconnect and repeat what they advertised
+	for _, pm := range s.livePeers() {
+		pm.sp = newSimPeer(s, pm.idx)
+		if err := pm.sp.Start(); err != nil {
+			panic(err)
+		}
+		p2p.AddPeerToSwitchPeerSet(s.sw, pm.sp)
+		s.bcR.AddPeer(pm.sp)
+		if pm.hasStatus {
+			s.receive(pm, &bcproto.StatusResponse{Base: pm.sb, Height: pm.sh})
+		}
+		e.Settle()
+	}
+	s.absorb()
+	e.Count("probe.restart_completed")
+}
+
+// c05state is the automaton over the application's consensus-connection journal: heights
+// are begun, delivered, ended and committed in order, each committed exactly once; a block
+// in progress may only be cut by a crash (the application forgets it).
+type c05state struct {
+	pos     int
+	last    int64
+	inBlock bool
+	endSeen bool
+	curH    int64
+	curInc  int
+	curTxs  []string
+}
+
+func (s *sim) checkJournal() {
+	st := &s.j05
+	j := s.app.Journal
+	for ; st.pos < len(j); st.pos++ {
+		c := j[st.pos]
+		if c.Conn != "consensus" {
+			continue
+		}
+		if st.inBlock && c.Inc != st.curInc {
+			st.inBlock = false
+			s.env.Count("probe.block_cut_by_crash")
+		}
+		switch c.Name {
+		case "InitChain":
+			if st.last != 0 {
+				s.violP("C05", "initchain-after-commit", "InitChain although the application had committed height %d", st.last)
+			}
+		case "BeginBlock":
+			want := st.last + 1
+			if st.last == 0 {
+				want = s.init
+			}
+			if st.inBlock {
+				s.violP("C05", "begin-inside-block", "BeginBlock(%d) while block %d is still being executed", c.Height, st.curH)
+			}
+			if c.Height < want {
+				s.violP("C05", "block-reexecuted", "BeginBlock(%d) although the application already committed height %d", c.Height, st.last)
+			}
+			if c.Height > want {
+				s.violP("C05", "height-skipped", "BeginBlock(%d) but the next height is %d", c.Height, want)
+			}
+			st.inBlock, st.curH, st.curInc, st.curTxs, st.endSeen = true, c.Height, c.Inc, nil, false
+		case "DeliverTx":
+			if !st.inBlock || st.endSeen {
+				s.violP("C05", "delivertx-outside-block", "DeliverTx outside BeginBlock..EndBlock (height %d)", c.Height)
+			}
+			st.curTxs = append(st.curTxs, c.Tx)
+		case "EndBlock":
+			if !st.inBlock || st.endSeen || c.Height != st.curH {
+				s.violP("C05", "endblock-misplaced", "EndBlock(%d) does not close block %d", c.Height, st.curH)
+			}
+			st.endSeen = true
+		case "Commit":
+			if !st.inBlock || !st.endSeen {
+				s.violP("C05", "commit-misplaced", "Commit without a complete BeginBlock..EndBlock sequence")
+			}
+			if blk := s.c.ch.Blocks[st.curH]; blk != nil {
+				ok := len(blk.Txs) == len(st.curTxs)
+				for i := 0; ok && i < len(blk.Txs); i++ {
+					ok = string(blk.Txs[i]) == st.curTxs[i]
+				}
+				if !ok {
+					s.violP("C05", "txs-mismatch", "height %d: the application executed %d transactions, not the canonical block's %d in block order", st.curH, len(st.curTxs), len(blk.Txs))
+				}
+			}
+			st.last, st.inBlock = st.curH, false
+		}
+	}
+}
+
+func (s *sim) noteSent(sp *simPeer, m proto.Message) {
+	if sp.inc != s.inc {
+		return // a previous incarnation of the node
+	}
+	r := sentRec{p: sp.idx, kind: "other", at: time.Now()}
 	switch msg := m.(type) {
 	case *bcproto.BlockRequest:
 		r.kind, r.h = "req", msg.Height
@@ -953,19 +1269,21 @@ func (s *sim) sleep(d time.Duration) {
 
 // viol reports a violation. In multi-eligible mode (outcomes depend on Go map order inside
 // the pool) it is reported only if an immediate re-run of the same trace shows it again.
-func (s *sim) viol(sig, format string, a ...any) {
+func (s *sim) viol(sig, format string, a ...any) { s.violP("C13", sig, format, a...) }
+
+func (s *sim) violP(prop, sig, format string, a ...any) {
 	if s.rerun {
-		if s.env.IsKnown("C13", sig) {
+		if s.env.IsKnown(prop, sig) || !s.env.Checking(prop) {
 			return
 		}
 		panic(rerunHit{sig})
 	}
 	if s.mode != "multi" {
-		s.env.Fail("C13", sig, format, a...)
+		s.env.Fail(prop, sig, format, a...)
 		return
 	}
-	if s.env.IsKnown("C13", sig) || !s.env.Checking("C13") {
-		s.env.Fail("C13", sig, format, a...)
+	if s.env.IsKnown(prop, sig) || !s.env.Checking(prop) {
+		s.env.Fail(prop, sig, format, a...)
 		return
 	}
 	got := s.reproduce()
@@ -975,12 +1293,12 @@ func (s *sim) viol(sig, format string, a ...any) {
 	if got == sig {
 		msg := "(multi-eligible mode, reproduced in-process) " + fmt.Sprintf(format, a...)
 		if s.inFinish {
-			s.env.Fail("C13", sig, "%s", msg)
+			s.env.Fail(prop, sig, "%s", msg)
 			return
 		}
 		// reported at the end of the trace: at which action an alarm appears depends on map
 		// order, the event log (the trace) must not
-		s.pendSig, s.pendMsg = sig, msg
+		s.pendProp, s.pendSig, s.pendMsg = prop, sig, msg
 		s.dead = true
 		panic(deadRun{})
 	}
@@ -1265,21 +1583,11 @@ func (s *sim) checkStore() {
 	if sh > s.checked {
 		s.checked = sh
 	}
-	// executed == stored, in order
-	j := s.app.ConsensusJournal()
-	next := s.init
-	for _, c := range j {
-		if c.Name != "BeginBlock" {
-			continue
-		}
-		if c.Height != next {
-			s.viol("executed-out-of-order", "application executed height %d, expected %d", c.Height, next)
-			break
-		}
-		next++
-	}
-	if next-1 != sh && !(sh == 0 && next == s.init) {
-		s.viol("executed-vs-stored", "application executed up to height %d, block store holds up to %d", next-1, sh)
+	// executed == stored: every height begun/delivered/ended/committed once, in order (C05),
+	// and at rest the application stands at the block store's height
+	s.checkJournal()
+	if ah := s.app.CommittedHeight(); ah != sh {
+		s.viol("executed-vs-stored", "application committed up to height %d, block store holds up to %d", ah, sh)
 	}
 	if sh > 0 {
 		st, err := s.stateStore.Load()
@@ -1338,8 +1646,8 @@ func (s *sim) checkSwitch() {
 			s.viol("handover-state-mismatch", "state handed to consensus at height %d is not the canonical state", sh)
 		}
 	}
-	if want := sh > s.prefill; rec.skipWAL != want {
-		s.viol("handover-skipwal", "skipWAL=%v although %d blocks were synced", rec.skipWAL, sh-s.prefill)
+	if want := sh > s.startH; rec.skipWAL != want {
+		s.viol("handover-skipwal", "skipWAL=%v although %d blocks were synced by this incarnation", rec.skipWAL, sh-s.startH)
 	}
 	// the node may only consider itself caught up relative to what connected peers advertise
 	var maxAdv int64
@@ -1364,6 +1672,12 @@ func (s *sim) checkSwitch() {
 // after settles and evaluates the invariants that hold at every quiescent point.
 func (s *sim) after() {
 	s.env.Settle()
+	if s.crashMode && !s.restarting && !s.dead && s.ctl.Dead() {
+		s.restart()
+		if s.dead {
+			panic(deadRun{})
+		}
+	}
 	s.absorb()
 	s.checkStore()
 	s.checkSwitch()
@@ -1401,6 +1715,23 @@ func (s *sim) tableAt(h int64, att int, second bool) (string, int) {
 		}
 	}
 	return "honest", x
+}
+
+// crashOp arms a crash at the k-th persistence point from now; kb/ks say how much of the
+// unsynced tail of each database survives (per mille), hk > 0 adds a second crash at the
+// hk-th persistence point of the restart's handshake.
+func (s *sim) crashOp(rng *simcore.RNG) simcore.Op {
+	op := simcore.Op{"a": "crash", "k": rng.Range(1, 48), "kb": rng.Intn(1001), "ks": rng.Intn(1001), "hk": 0}
+	if rng.Bool(0.3) {
+		op["kb"] = []int{0, 1000}[rng.Intn(2)]
+	}
+	if rng.Bool(0.3) {
+		op["ks"] = []int{0, 1000}[rng.Intn(2)]
+	}
+	if rng.Bool(0.3) {
+		op["hk"] = rng.Range(1, 24)
+	}
+	return op
 }
 
 func (s *sim) tickOp(rng *simcore.RNG) simcore.Op {
@@ -1467,6 +1798,10 @@ func (s *sim) Next(rng *simcore.RNG) simcore.Op {
 	if len(withStatus) > 0 {
 		w[9] = 2 // a new status
 	}
+	if s.crashMode && s.crashPlan < 3 && s.armK == 0 && sh < s.n-1 && rng.Bool(0.05) {
+		s.crashPlan++
+		return s.crashOp(rng)
+	}
 	switch rng.Weighted(w) {
 	case 0:
 		return simcore.Op{"a": "join", "p": s.nextIdx, "seg": uncovered[rng.Intn(len(uncovered))]}
@@ -1530,6 +1865,10 @@ func (s *sim) Next(rng *simcore.RNG) simcore.Op {
 // nextMulti draws policy-level actions that do not look at the (map-order dependent) state
 // of the run: targets are named by rank and resolved when the action is applied.
 func (s *sim) nextMulti(rng *simcore.RNG) simcore.Op {
+	if s.cfg.Bool("crash") && s.crashPlan < 3 && rng.Bool(0.04) {
+		s.crashPlan++ // a function of the trace only
+		return s.crashOp(rng)
+	}
 	switch rng.Weighted([]int{55, 22, 4, 2, 2, 2, 2}) {
 	case 0:
 		r := 0
@@ -1726,6 +2065,21 @@ func (s *sim) apply(op simcore.Op) bool {
 		}
 		s.sw.StopPeerForError(pm.sp, "sim: leave")
 		e.Count("fault.peer_leaves")
+	case "crash":
+		k := op.Int("k")
+		if !s.crashMode || k <= 0 || s.crashes >= 4 {
+			return false
+		}
+		s.mu.Lock()
+		armed := s.armK > 0
+		if !armed {
+			s.armK, s.armOp = k, op
+		}
+		s.mu.Unlock()
+		if armed {
+			return false
+		}
+		e.Count("op.crash_armed")
 	case "tick":
 		ms := op.Int("ms")
 		if ms <= 0 || ms > 40000 {
@@ -1912,7 +2266,7 @@ func (s *sim) drain() {
 
 func (s *sim) Finish() {
 	if s.pendSig != "" {
-		s.env.Fail("C13", s.pendSig, "%s", s.pendMsg)
+		s.env.Fail(s.pendProp, s.pendSig, "%s", s.pendMsg)
 	}
 	if s.dead {
 		return
